@@ -677,10 +677,18 @@ macro_rules! define_frost_core { () => {
         /// This function can be used by the coordinator to check that the
         /// signer computed its signature share properly. It is implictly
         /// called by `Coordinator::assemble_signature()`.
+        ///
+        /// The list of commitments must be ordered by ascending signer
+        /// identifier, with no duplicate (as returned by
+        /// `Coordinator::choose()` and `Commitment::decode_list()`);
+        /// otherwise, `false` is returned.
         pub fn verify_signature_share(self, sig_share: SignatureShare,
             commitment_list: &[Commitment], group_pk: GroupPublicKey,
             msg: &[u8]) -> bool
         {
+            if !commitment_list_is_ordered(commitment_list) {
+                return false;
+            }
             let binding_factor_list = compute_binding_factors(
                 group_pk, commitment_list, msg);
             let group_commitment = compute_group_commitment(
@@ -1032,6 +1040,13 @@ macro_rules! define_frost_core { () => {
             signer_public_keys: &[SignerPublicKey], msg: &[u8])
             -> Option<Signature>
         {
+            // The list of commitments must be ordered by ascending
+            // identifier with no duplicate (the Lagrange coefficient
+            // computation relies on it).
+            if !commitment_list_is_ordered(commitment_list) {
+                return None;
+            }
+
             // Verify all shares.
             let binding_factor_list = compute_binding_factors(
                 self.group_pk, commitment_list, msg);
@@ -1147,6 +1162,19 @@ macro_rules! define_frost_core { () => {
             Q += c.hiding + bf.factor * c.binding;
         }
         Q
+    }
+
+    /// Check that a list of commitments is ordered by strictly ascending
+    /// signer identifier (hence without duplicates).
+    fn commitment_list_is_ordered(commitment_list: &[Commitment]) -> bool {
+        for i in 1..commitment_list.len() {
+            if scalar_cmp_vartime(commitment_list[i - 1].ident,
+                commitment_list[i].ident) != Ordering::Less
+            {
+                return false;
+            }
+        }
+        true
     }
 
     /// Derive the list of participants (identifers) from
